@@ -7,13 +7,19 @@ import Mathlib.Tactic.FieldSimp
 import Mathlib.Tactic.Linarith
 import Mathlib.Algebra.Order.Field.Rat
 import Mathlib.Algebra.Order.BigOperators.Ring.Finset
+import Mathlib.Topology.Algebra.Field
+import Mathlib.Topology.Algebra.Monoid
+import Mathlib.Topology.Instances.Real.Lemmas
 /-!
 # C14 — generated ensembles and the declared composition by mass
 
 `C14_impl_law`: the component pick uses `pᵢ = relᵢ / Σ rel` (the declared percentage), independent of the molecules'
 masses.  With mean molecule masses `m̄ᵢ > 0` the expected mass contributed per pick by component `i` is `pᵢ m̄ᵢ`, so
 the long-run mass share is `sᵢ = pᵢ m̄ᵢ / Σ pⱼ m̄ⱼ` (the passage from the expectation per pick to the almost-sure
-limit of the realised share is the renewal–reward theorem: cited, not formalised — `C14_partial`).
+limit of the realised share is split in two: `C14_realised_share_tendsto` proves, for **every** realised sequence of
+picks and molecule masses, that if the pick frequencies tend to `pᵢ` and the sample mean masses to `m̄ᵢ` then the realised
+mass share tends to `pᵢ m̄ᵢ / Σ pⱼ m̄ⱼ`; that those two hypotheses hold almost surely for independent picks is the strong
+law of large numbers, which is cited, not formalised — `C14_partial`).
 `C14_fair_iff`: the shares equal the declared fractions iff `pᵢ ∝ fᵢ / m̄ᵢ`; for the implemented law (`p = f`) iff all
 mean masses are equal.  So the property fails on the pinned tree whenever component masses differ: recorded finding
 `mass-share-differs-when-molecule-masses-differ`.
@@ -103,5 +109,63 @@ theorem C14_counterexample :
   constructor
   · simp [share, Fin.sum_univ_two]; norm_num
   · norm_num
+
+/-! ## from the realised sequence to the limit share -/
+section Limit
+open Filter Topology
+
+/-- **C14 (realised share)**: `N i t` = number of molecules of component `i` among the first `t` picks, `M i t` = their
+total mass.  Whenever the pick frequencies converge to `p` (all positive) and the sample mean masses to `m`, the realised
+mass share of every component converges to `pᵢ mᵢ / Σ pⱼ mⱼ` — for every realisation, no probability involved. -/
+theorem C14_realised_share_tendsto {n : Nat} (N M : Fin n → ℕ → ℝ) (p m : Fin n → ℝ)
+    (hN : ∀ i, Tendsto (fun t : ℕ => N i t / (t : ℝ)) atTop (𝓝 (p i)))
+    (hM : ∀ i, Tendsto (fun t : ℕ => M i t / N i t) atTop (𝓝 (m i)))
+    (hp : ∀ i, 0 < p i) (hS : 0 < ∑ j, p j * m j) (i : Fin n) :
+    Tendsto (fun t : ℕ => M i t / ∑ j, M j t) atTop (𝓝 (p i * m i / ∑ j, p j * m j)) := by
+  have hper : ∀ j, Tendsto (fun t : ℕ => M j t / (t : ℝ)) atTop (𝓝 (p j * m j)) := by
+    intro j
+    have hmul := (hN j).mul (hM j)
+    refine hmul.congr' ?_
+    have hpos : ∀ᶠ t : ℕ in atTop, 0 < N j t / (t : ℝ) := (hN j).eventually (lt_mem_nhds (hp j))
+    filter_upwards [hpos] with t ht
+    have hNt : N j t ≠ 0 := by
+      intro h0; rw [h0, zero_div] at ht; exact lt_irrefl _ ht
+    field_simp
+  have hsum : Tendsto (fun t : ℕ => ∑ j, M j t / (t : ℝ)) atTop (𝓝 (∑ j, p j * m j)) :=
+    tendsto_finsetSum _ (fun j _ => hper j)
+  have hdiv := (hper i).div hsum (ne_of_gt hS)
+  refine hdiv.congr' ?_
+  filter_upwards [eventually_gt_atTop 0] with t ht
+  have : (t : ℝ) ≠ 0 := by exact_mod_cast (Nat.pos_iff_ne_zero.1 ht)
+  simp only [Pi.div_apply]
+  rw [← Finset.sum_div]
+  field_simp
+
+/-- the implemented pick law (`p = f`) with two components of different mean masses: the realised share of the first
+tends to a value different from its declared fraction (non-vacuity of the hypotheses: constant sequences
+`N i t = f i * t`, `M i t = f i * m i * t`) -/
+example : Tendsto (fun t : ℕ => ((9/10 : ℝ) * 72 * t) / ∑ j : Fin 2, (![(9/10 : ℝ) * 72 * t, (1/10 : ℝ) * 5000 * t] j))
+    atTop (𝓝 ((9/10 : ℝ) * 72 / ∑ j : Fin 2, ![(9/10 : ℝ), 1/10] j * ![(72 : ℝ), 5000] j)) := by
+  have := C14_realised_share_tendsto (n := 2)
+    (fun i t => ![(9/10 : ℝ), 1/10] i * t) (fun i t => ![(9/10 : ℝ), 1/10] i * ![(72 : ℝ), 5000] i * t)
+    ![(9/10 : ℝ), 1/10] ![(72 : ℝ), 5000]
+    (by
+      intro i
+      refine tendsto_const_nhds.congr' ?_
+      filter_upwards [eventually_gt_atTop 0] with t ht
+      have : (t : ℝ) ≠ 0 := by exact_mod_cast (Nat.pos_iff_ne_zero.1 ht)
+      field_simp)
+    (by
+      intro i
+      refine tendsto_const_nhds.congr' ?_
+      filter_upwards [eventually_gt_atTop 0] with t ht
+      have : (t : ℝ) ≠ 0 := by exact_mod_cast (Nat.pos_iff_ne_zero.1 ht)
+      have hf : (![(9/10 : ℝ), 1/10] i) ≠ 0 := by fin_cases i <;> norm_num
+      field_simp)
+    (by intro i; fin_cases i <;> norm_num)
+    (by simp [Fin.sum_univ_two]; norm_num) 0
+  simpa using this
+
+end Limit
 
 end GBS
